@@ -1,5 +1,5 @@
 PROP = dict(
-    modules=["Shangrla.Props.C07"],
+    modules=["Shangrla.Props.C07", "Shangrla.Props.RiskLimitConsistentSampling"],
     theorems=["Shangrla.C07.sample_eq_union", "Shangrla.C07.threshold_eq", "Shangrla.C07.contest_data_eq",
               "Shangrla.C07.sample_nums_function_of_seed_and_position", "Shangrla.C07.sample_nums_deterministic",
               "Shangrla.C07.scratch_eq",
@@ -7,7 +7,13 @@ PROP = dict(
               # meaning (sorted list = permutation of the cards, strictly increasing sample numbers)
               "Shangrla.Sampling.walk_spec", "Shangrla.Sampling.consistentSampling_spec",
               "Shangrla.Sampling.sortedPairs_perm", "Shangrla.Sampling.sortedPairs_strict",
-              "Shangrla.Sampling.mem_sortedPairs", "Shangrla.Sampling.cCards_length"],
+              "Shangrla.Sampling.mem_sortedPairs", "Shangrla.Sampling.cCards_length",
+              # consistent sampling inside the audit-level risk limit (also registered under C09): sample numbers =
+              # a uniformly random order; a contest's data are the used values of a prefix of that order, in every
+              # round of every adaptive policy
+              "Shangrla.RiskLimit.sortedPairs_cvrList", "Shangrla.RiskLimit.cs_contest_data_prefix",
+              "Shangrla.RiskLimit.step_closed", "Shangrla.RiskLimit.csLoop_prefix", "Shangrla.RiskLimit.csAudit_ever",
+              "Shangrla.RiskLimit.consistent_sampling_audit_risk_limit"],
     groups={"sampling": (8000, 40000)},
     design_ref="DESIGN.md section 5, C07",
     assumptions=[
